@@ -241,6 +241,8 @@ impl Executor {
     /// error is encountered.
     pub(crate) fn run(&mut self, timeout: Duration) -> Result<(), ExecutorError> {
         self.context.pool_manager.activate_worker();
+        #[cfg(feature = "verif-hooks")]
+        crate::verif_hooks::delay(crate::verif_hooks::site::R1);
 
         loop {
             if let Some((model_id, payload)) = self.context.pool_manager.take_panic() {
@@ -248,6 +250,8 @@ impl Executor {
             }
 
             if self.context.pool_manager.pool_is_idle() {
+                #[cfg(feature = "verif-hooks")]
+                crate::verif_hooks::delay(crate::verif_hooks::site::R2);
                 let msg_count = self.context.msg_count.load(Ordering::Relaxed);
                 if msg_count != 0 {
                     let msg_count: usize = msg_count.try_into().unwrap();
@@ -459,6 +463,8 @@ fn schedule_task(task: Runnable, executor_id: usize) {
                 // there is no point in activating a sibling worker.
                 None => return,
             };
+            #[cfg(feature = "verif-hooks")]
+            crate::verif_hooks::delay(crate::verif_hooks::site::S1);
 
             // Push the previous task to the local queue if possible or on the
             // injector queue otherwise.
@@ -477,6 +483,8 @@ fn schedule_task(task: Runnable, executor_id: usize) {
             // A task has been pushed to the local or injector queue: try to
             // activate another worker if no worker is currently searching for a
             // task.
+            #[cfg(feature = "verif-hooks")]
+            crate::verif_hooks::delay(crate::verif_hooks::site::S2);
             if pool_manager.searching_worker_count() == 0 {
                 pool_manager.activate_worker_relaxed();
             }
@@ -518,8 +526,14 @@ fn run_local_worker(worker: &Worker, id: usize, parker: Parker, abort_signal: Si
             if pool_manager.try_set_worker_inactive(id) {
                 // No need to call `begin_worker_search()`: this was done by the
                 // thread that unparked the worker.
+                #[cfg(feature = "verif-hooks")]
+                crate::verif_hooks::delay(crate::verif_hooks::site::W1);
                 update_msg_count();
+                #[cfg(feature = "verif-hooks")]
+                crate::verif_hooks::delay(crate::verif_hooks::site::W2);
                 parker.park();
+                #[cfg(feature = "verif-hooks")]
+                crate::verif_hooks::delay(crate::verif_hooks::site::W6);
             } else if injector.is_empty() {
                 // This worker could not be deactivated because it was the last
                 // active worker. In such case, the call to
@@ -528,9 +542,15 @@ fn run_local_worker(worker: &Worker, id: usize, parker: Parker, abort_signal: Si
                 // not activate a new worker, which is why some tasks may now be
                 // visible in the injector queue.
                 pool_manager.set_all_workers_inactive();
+                #[cfg(feature = "verif-hooks")]
+                crate::verif_hooks::delay(crate::verif_hooks::site::W4);
                 update_msg_count();
+                #[cfg(feature = "verif-hooks")]
+                crate::verif_hooks::delay(crate::verif_hooks::site::W5);
                 executor_unparker.unpark();
                 parker.park();
+                #[cfg(feature = "verif-hooks")]
+                crate::verif_hooks::delay(crate::verif_hooks::site::W6);
                 // No need to call `begin_worker_search()`: this was done by the
                 // thread that unparked the worker.
             } else {
@@ -546,6 +566,8 @@ fn run_local_worker(worker: &Worker, id: usize, parker: Parker, abort_signal: Si
             // Process the tasks one by one.
             loop {
                 // Check the injector queue first.
+                #[cfg(feature = "verif-hooks")]
+                crate::verif_hooks::delay(crate::verif_hooks::site::W7);
                 if let Some(bucket) = injector.pop_bucket() {
                     let bucket_iter = bucket.into_iter();
 
@@ -580,6 +602,8 @@ fn run_local_worker(worker: &Worker, id: usize, parker: Parker, abort_signal: Si
                 } else {
                     // The injector queue is empty. Try to steal from active
                     // siblings.
+                    #[cfg(feature = "verif-hooks")]
+                    crate::verif_hooks::delay(crate::verif_hooks::site::W8);
                     let mut stealers = pool_manager.shuffled_stealers(Some(id), &rng);
                     if stealers.all(|stealer| {
                         stealer
@@ -604,6 +628,8 @@ fn run_local_worker(worker: &Worker, id: usize, parker: Parker, abort_signal: Si
                 // Signal the end of the search so that another worker can be
                 // activated when a new task is scheduled.
                 pool_manager.end_worker_search();
+                #[cfg(feature = "verif-hooks")]
+                crate::verif_hooks::delay(crate::verif_hooks::site::W9);
 
                 // Pop tasks from the fast slot or the local queue.
                 while let Some(task) = fast_slot.take().or_else(|| local_queue.pop()) {
@@ -611,6 +637,8 @@ fn run_local_worker(worker: &Worker, id: usize, parker: Parker, abort_signal: Si
                         return;
                     }
                     task.run();
+                    #[cfg(feature = "verif-hooks")]
+                    crate::verif_hooks::delay(crate::verif_hooks::site::W10);
                 }
 
                 // Resume the search for tasks.
